@@ -27,9 +27,9 @@ Section S.
   Lemma rekey_noop : forall susp w ci,
     calc_id frepr (c_data (getC w ci)) = h_id (getH w (hd 0%nat (c_jobs (getC w ci)))) ->
     sp_save frepr susp w ci = (w, inl tt).
-  Proof. intros susp w ci H. unfold sp_save. rewrite H, str_eqb_refl. reflexivity. Qed.
+  Proof. intros susp w ci H. unfold sp_save. rewrite H, str_eqb_refl. destruct susp; reflexivity. Qed.
 
-  Lemma rekey_conflict : forall susp w ci cf,
+  Lemma rekey_conflict : forall w ci cf,
     let c := getC w ci in
     let h0 := getH w (hd 0%nat (c_jobs c)) in
     let old := h_id h0 in
@@ -40,10 +40,10 @@ Section S.
     get (w_fs w) (wsd ++ [old; SPT]) = None ->
     get (w_fs w) (wsd ++ [old]) = Some Dir -> get (w_fs w) wsd = Some Dir ->
     get (w_fs w) (wsd ++ [new]) = Some Dir -> has_children (w_fs w) (wsd ++ [new]) = true ->
-    exists w', sp_save frepr susp w ci = (w', inr (FExn EDestinationExists)) /\
+    exists w', sp_save frepr false w ci = (w', inr (FExn EDestinationExists)) /\
       fs_eq (w_fs w') (w_fs w) /\ w_hs w' = w_hs w /\ w_cs w' = w_cs w /\ w_ss w' = w_ss w.
   Proof.
-    intros susp w ci cf c h0 old new wsd Hne Hfile Htmp Hsrc Hws Hdst Hkids.
+    intros w ci cf c h0 old new wsd Hne Hfile Htmp Hsrc Hws Hdst Hkids.
     set (f := w_fs w) in *. set (src := wsd ++ [old]) in *. set (dst := wsd ++ [new]) in *.
     assert (Efn : wsd ++ [old; SPF] = src ++ [SPF]) by apply two_snoc.
     assert (Etn : wsd ++ [old; SPT] = src ++ [SPT]) by apply two_snoc.
@@ -269,6 +269,45 @@ Section S.
       rewrite set_ids_notin by exact Hk. rewrite getH_set_H_same by exact Hlt. reflexivity.
   Qed.
 
+  (* ---------------------------------------------------------------- set_cached *)
+  Lemma set_cached_frame : forall js w d,
+    w_fs (set_cached w js d) = w_fs w /\ w_ss (set_cached w js d) = w_ss w /\ w_cs (set_cached w js d) = w_cs w
+    /\ w_tr (set_cached w js d) = w_tr w /\ length (w_hs (set_cached w js d)) = length (w_hs w).
+  Proof.
+    induction js as [|j js IH]; intros w d; simpl; [auto 6|].
+    destruct (IH (set_H w j (mkH (h_s (getH w j)) (h_id (getH w j)) (Some d) (h_cell (getH w j)) (h_dk (getH w j)))) d)
+      as [H1 [H2 [H3 [H4 H5]]]].
+    rewrite H1, H2, H3, H4, H5. simpl. rewrite length_set_nth. auto 6.
+  Qed.
+
+  Lemma set_cached_fields : forall js w d k,
+    h_s (getH (set_cached w js d) k) = h_s (getH w k) /\ h_cell (getH (set_cached w js d) k) = h_cell (getH w k)
+    /\ h_id (getH (set_cached w js d) k) = h_id (getH w k) /\ h_dk (getH (set_cached w js d) k) = h_dk (getH w k).
+  Proof.
+    induction js as [|j js IH]; intros w d k; simpl; [auto|].
+    destruct (IH (set_H w j (mkH (h_s (getH w j)) (h_id (getH w j)) (Some d) (h_cell (getH w j)) (h_dk (getH w j)))) d k)
+      as [H1 [H2 [H3 H4]]].
+    rewrite H1, H2, H3, H4. unfold getH, set_H. simpl.
+    repeat split; apply (nth_set_nth_proj handle); reflexivity.
+  Qed.
+
+  Lemma set_cached_notin : forall js w d k, ~ In k js -> h_cached (getH (set_cached w js d) k) = h_cached (getH w k).
+  Proof.
+    induction js as [|j js IH]; intros w d k Hn; simpl; [reflexivity|].
+    rewrite IH by (intro H; apply Hn; simpl; auto).
+    rewrite getH_set_H_other; [reflexivity|]. intro E. apply Hn. simpl. auto.
+  Qed.
+
+  Lemma set_cached_in : forall js w d k, In k js -> (k < length (w_hs w))%nat ->
+    h_cached (getH (set_cached w js d) k) = Some d.
+  Proof.
+    induction js as [|j js IH]; intros w d k Hin Hlt; simpl; [contradiction|].
+    destruct (in_dec Nat.eq_dec k js) as [Hk|Hk].
+    - apply IH; auto. simpl. rewrite length_set_nth. exact Hlt.
+    - destruct Hin as [->|Hin]; [|contradiction].
+      rewrite set_cached_notin by exact Hk. rewrite getH_set_H_same by exact Hlt. reflexivity.
+  Qed.
+
   (* ---------------------------------------------------------------- the successful re-key *)
   Lemma rekey_ok : forall w ci cf,
     let c := getC w ci in
@@ -294,7 +333,8 @@ Section S.
       (forall x r, x :: r <> [SPF] -> x :: r <> [SPT] -> get (w_fs w') (dst ++ x :: r) = get (w_fs w) (src ++ x :: r)) /\
       (forall q, under src q = false -> under dst q = false -> get (w_fs w') q = get (w_fs w) q) /\
       (forall j, In j js -> h_id (getH w' j) = new /\ h_s (getH w' j) = h_s h0) /\
-      (forall k, h_cached (getH w' k) = h_cached (getH w k)).
+      (forall j, In j js -> h_cached (getH w' j) = Some (c_data c)) /\
+      (forall k, ~ In k js -> h_cached (getH w' k) = h_cached (getH w k)).
   Proof.
     intros w ci cf c js h0 old new wsd src dst Hne Hjs Hall Hfile Htmp Htmp2 Hsrc Hws Hdst Hkids.
     set (f := w_fs w) in *.
@@ -348,8 +388,14 @@ Section S.
     assert (Hon : str_eqb old new = false) by (apply str_eqb_neq; exact Hne). rewrite Hon.
     rewrite !two_snoc. fold src dst fname tmp f. rewrite R1. simpl w_fs. rewrite R2.
     set (wa := set_fs (set_fs w f1 [EvRename fname tmp]) f2 [EvRename src dst]).
-    set (w2 := set_ids wa js new).
-    destruct (set_ids_frame js wa new) as [F1 [F2 [F3 [F4 F5]]]]. fold w2 in F1, F2, F3, F4, F5.
+    set (w2i := set_ids wa js new).
+    set (w2 := set_cached w2i js (c_data c)).
+    assert (FF : w_fs w2 = w_fs wa /\ w_ss w2 = w_ss wa /\ w_cs w2 = w_cs wa /\ w_tr w2 = w_tr wa
+                 /\ length (w_hs w2) = length (w_hs wa)).
+    { destruct (set_ids_frame js wa new) as [A1 [A2 [A3 [A4 A5]]]]. fold w2i in A1, A2, A3, A4, A5.
+      destruct (set_cached_frame js w2i (c_data c)) as [B1 [B2 [B3 [B4 B5]]]]. fold w2 in B1, B2, B3, B4, B5.
+      rewrite B1, B2, B3, B4, B5. auto 6. }
+    destruct FF as [F1 [F2 [F3 [F4 F5]]]].
     set (tmp' := dst ++ [SPT]).
     assert (Htmp'2 : get f2 tmp' = Some (File cf)).
     { rewrite G2. unfold tmp'. rewrite strip_app. fold tmp. rewrite G1, path_eqb_refl. reflexivity. }
@@ -369,10 +415,12 @@ Section S.
     destruct (Hall hl Hl_in) as [Hl_lt [Hl_cell Hl_s]].
     assert (Hh3 : forall k, h_s (getH w3 k) = h_s (getH w k) /\ h_cell (getH w3 k) = h_cell (getH w k)).
     { intro k. unfold w3. rewrite getH_set_fs. unfold w2.
+      destruct (set_cached_fields js w2i (c_data c) k) as [A' [B' _]]. rewrite A', B'. unfold w2i.
       destruct (set_ids_fields js wa new k) as [A [B _]]. rewrite A, B. auto. }
     assert (Hid3 : forall j, In j js -> h_id (getH w3 j) = new).
-    { intros j Hj. unfold w3. rewrite getH_set_fs. unfold w2. apply set_ids_in; auto.
-      destruct (Hall j Hj) as [Hlt _]. exact Hlt. }
+    { intros j Hj. unfold w3. rewrite getH_set_fs. unfold w2.
+      destruct (set_cached_fields js w2i (c_data c) j) as [_ [_ [C' _]]]. rewrite C'. unfold w2i.
+      apply set_ids_in; auto. destruct (Hall j Hj) as [Hlt _]. exact Hlt. }
     assert (E3 : sp_access frepr w3 hl = (w3, inl ci)).
     { apply sp_access_idem. destruct (Hh3 hl) as [_ B]. rewrite B. exact Hl_cell. }
     assert (Hws3 : wsp (getS w3 (h_s (getH w3 hl))) = wsd).
@@ -410,7 +458,7 @@ Section S.
     assert (Gq : forall q, get (w_fs w') q =
               if path_eqb q (dst ++ [SPF]) then Some (File (sp_content frepr (c_data c)))
               else if path_eqb q dst then Some Dir else get f3 q) by exact G.
-    split; [|split; [|split; [|split; [|split; [|split; [|split]]]]]].
+    split; [|split; [|split; [|split; [|split; [|split; [|split; [|split]]]]]]].
     - intro r. rewrite Gq.
       assert (Hu : under dst (src ++ r) = false).
       { destruct (under dst (src ++ r)) eqn:E; auto.
@@ -456,12 +504,25 @@ Section S.
       rewrite Hq1. apply Hout. exact Hq1.
     - intros j Hj. destruct (Hids j) as [A [B _]]. rewrite A, B. split; [apply Hid3; exact Hj|].
       destruct (Hh3 j) as [C _]. rewrite C. destruct (Hall j Hj) as [_ [_ D]]. exact D.
-    - intro k. destruct (Hids k) as [_ [_ C]]. rewrite C. unfold w3. rewrite getH_set_fs. unfold w2.
+    - intros j Hj. destruct (Hids j) as [_ [_ C]]. rewrite C. unfold w3. rewrite getH_set_fs. unfold w2.
+      apply set_cached_in; auto. destruct (set_ids_frame js wa new) as [_ [_ [_ [_ A5]]]]. fold w2i in A5.
+      rewrite A5. simpl. destruct (Hall j Hj) as [Hlt _]. exact Hlt.
+    - intros k Hk. destruct (Hids k) as [_ [_ C]]. rewrite C. unfold w3. rewrite getH_set_fs. unfold w2.
+      rewrite set_cached_notin by exact Hk. unfold w2i.
       destruct (set_ids_fields js wa new k) as [_ [_ [D _]]]. rewrite D. reflexivity.
   Qed.
 
+  (* whole assignment is ONE re-key with the merged data: the root saves that nested lists trigger in
+     the middle of _update return at once (fix 3806f72) *)
+  Lemma cell_reset_single_rekey : forall w ci new,
+    cell_reset frepr w ci new = sp_save frepr false (set_data w ci (snd (upd_root (c_data (getC w ci)) new))) ci.
+  Proof. intros. unfold cell_reset. destruct (upd_root (c_data (getC w ci)) new). reflexivity. Qed.
+
+  Lemma sp_save_suspended : forall w ci, sp_save frepr true w ci = (w, inl tt).
+  Proof. reflexivity. Qed.
+
   (* ---------------------------------------------------------------- licence for the correspondence (conflict clause) *)
-  Lemma conflict_oracle_clause : forall susp w ci cf,
+  Lemma conflict_oracle_clause : forall w ci cf,
     let c := getC w ci in
     let h0 := getH w (hd 0%nat (c_jobs c)) in
     let old := h_id h0 in
@@ -472,11 +533,11 @@ Section S.
     get (w_fs w) (wsd ++ [old; SPT]) = None ->
     get (w_fs w) (wsd ++ [old]) = Some Dir -> get (w_fs w) wsd = Some Dir ->
     get (w_fs w) (wsd ++ [new]) = Some Dir -> has_children (w_fs w) (wsd ++ [new]) = true ->
-    let '(w', r) := sp_save frepr susp w ci in
+    let '(w', r) := sp_save frepr false w ci in
     out_unit r = VExn EDestinationExists /\ tree_same_except [] (w_fs w) (w_fs w') = true.
   Proof.
-    intros susp w ci cf c h0 old new wsd H1 H2 H3 H4 H5 H6 H7.
-    destruct (rekey_conflict susp w ci cf H1 H2 H3 H4 H5 H6 H7) as [w' [E [Hfs _]]].
+    intros w ci cf c h0 old new wsd H1 H2 H3 H4 H5 H6 H7.
+    destruct (rekey_conflict w ci cf H1 H2 H3 H4 H5 H6 H7) as [w' [E [Hfs _]]].
     fold c h0 old new wsd in E. rewrite E. split; [reflexivity|].
     apply fs_eq_tree_same. apply fs_eq_sym. exact Hfs.
   Qed.
@@ -488,13 +549,13 @@ Definition wfr (f : fl) : str := [].
 Definition kA : str := [97%N].
 Definition wA : path := [[65%N]].
 
-(* F11: after a successful re-key the handle's cached_statepoint is still the old state point *)
-Lemma cached_stale_witness :
+(* after a successful re-key the handle AND its shallow copy show the new job in all attributes *)
+Lemma follow_example :
   let old := JObj [(kA, JInt 0)] in let new := JObj [(kA, JInt 1)] in
-  run wfr w0 0 [ONewSession wA; OOpenSp 0 old; OInit 0 false; OEdit 0 [] (ESetKey kA (JInt 1));
-                OIdPath 0; OSp 0; OCached 0]
-  = [VUnit; VStr (calc_id wfr old); VUnit; VUnit;
-     VIdPath (calc_id wfr new) (wA ++ [WS; calc_id wfr new]); VJson new; VJson old].
+  run wfr w0 0 [ONewSession wA; OOpenSp 0 old; OInit 0 false; OCopy 0; OEdit 0 [] (ESetKey kA (JInt 1));
+                OIdPath 1; OSp 1; OCached 1; OCached 0]
+  = [VUnit; VStr (calc_id wfr old); VUnit; VStr (calc_id wfr old); VUnit;
+     VIdPath (calc_id wfr new) (wA ++ [WS; calc_id wfr new]); VJson new; VJson new; VJson new].
 Proof. vm_compute. reflexivity. Qed.
 
 (* a shallow copy taken before the state point was ever accessed does not follow the re-key *)
@@ -516,19 +577,14 @@ Lemma assign_drop_witness :
      VIdPath (calc_id wfr old) (wA ++ [WS; calc_id wfr old]); VJson old; VStrs [calc_id wfr old]].
 Proof. split; [vm_compute; discriminate|vm_compute; reflexivity]. Qed.
 
-(* whole assignment that changes a list in place: JobsCorruptedError, and the job directory ends up under
-   the new id with no state point file at all *)
-Lemma assign_list_witness :
-  let old := JObj [(kA, JArr [JInt 1; JInt 2])] in let new := JObj [(kA, JArr [JInt 1; JInt 3])] in
-  let w := fst (fst (fold_left (fun st o => fst (step wfr (fst (fst st)) (snd (fst st)) o, VUnit))
-                               [ONewSession wA; OOpenSp 0 old; OInit 0 false; OAssign 0 new] (w0, 0%nat, VUnit))) in
-  run wfr w0 0 [ONewSession wA; OOpenSp 0 old; OInit 0 false; OAssign 0 new; OIds 0]
-  = [VUnit; VStr (calc_id wfr old); VUnit; VExn EJobsCorrupted; VStrs [calc_id wfr new]]
-  /\ get (w_fs w) (wA ++ [WS; calc_id wfr new]) = Some Dir
-  /\ get (w_fs w) (wA ++ [WS; calc_id wfr new; SPF]) = None
-  /\ get (w_fs w) (wA ++ [WS; calc_id wfr new; SPT]) = None
-  /\ get (w_fs w) (wA ++ [WS; calc_id wfr old]) = None.
-Proof. vm_compute. repeat split; reflexivity. Qed.
+(* whole assignment that changes a list in place re-keys correctly (was: JobsCorruptedError + lost file) *)
+Lemma assign_list_example :
+  let old := JObj [(kA, JArr [JInt 1; JInt 2]); ([120%N], JInt 0)] in
+  let new := JObj [(kA, JArr [JInt 1; JInt 3; JInt 4]); ([120%N], JInt 1)] in
+  run wfr w0 0 [ONewSession wA; OOpenSp 0 old; OInit 0 false; OAssign 0 new; OIds 0; OSp 0; OCached 0; OIdPath 0]
+  = [VUnit; VStr (calc_id wfr old); VUnit; VUnit; VStrs [calc_id wfr new]; VJson new; VJson new;
+     VIdPath (calc_id wfr new) (wA ++ [WS; calc_id wfr new])].
+Proof. vm_compute. reflexivity. Qed.
 
 (* the world reached by a list of operations (observations dropped) *)
 Fixpoint exec (fr : fl -> str) (w : world) (q : nat) (ops : list op) : world :=
